@@ -73,27 +73,36 @@ Proof.
 Qed.
 
 (* ------------------------------------------------------------------ C03: what agents are told *)
+Lemma connected_run_only a x : In x (connected_run a) -> exists r, x = OutConnectedRun r.
+Proof.
+  unfold connected_run. destruct (a_state a); try (intros []). destruct (a_reply a); [|intros []].
+  intros [<-|[]]. eauto.
+Qed.
+
+Lemma consider_connect_only s i x : In x (snd (consider_connect s i)) -> exists q, x = OutReq q.
+Proof.
+  unfold consider_connect. destruct (needs_connect (get_obj s i) (p_now s)); cbn [snd]; [|intros []].
+  intros [<-|[]]. eauto.
+Qed.
+
 Lemma app_info_valid_iff s key dt id :
   (exists st, In (OutAppReply true st) (snd (app_info s key dt id))) <->
   (exists r, id = Some r /\ lookupN r (p_runs s) <> None).
 Proof.
   unfold app_info. split.
-  - intros [st Hin]. destruct id as [r|].
-    + destruct (lookupN r (p_runs s)) eqn:L; [exists r; split; [reflexivity|congruence]|].
-      exfalso. revert Hin.
-      destruct (lookupN key (p_apps s)) as [i|].
-      * destruct (consider_connect _ i) as [s2 o] eqn:C. cbn [snd]. intros [H|H]; [discriminate|].
-        unfold consider_connect in C. destruct (needs_connect _ _); inversion C; subst; cbn in H; intuition discriminate.
-      * destruct (Nat.leb app_limit (length (p_apps s))); [cbn; intuition discriminate|].
-        destruct (consider_connect _ _) as [s2 o] eqn:C. cbn [snd]. intros [H|H]; [discriminate|].
-        unfold consider_connect in C. destruct (needs_connect _ _); inversion C; subst; cbn in H; intuition discriminate.
-    + exfalso. revert Hin.
-      destruct (lookupN key (p_apps s)) as [i|].
-      * destruct (consider_connect _ i) as [s2 o] eqn:C. cbn [snd]. intros [H|H]; [discriminate|].
-        unfold consider_connect in C. destruct (needs_connect _ _); inversion C; subst; cbn in H; intuition discriminate.
-      * destruct (Nat.leb app_limit (length (p_apps s))); [cbn; intuition discriminate|].
-        destruct (consider_connect _ _) as [s2 o] eqn:C. cbn [snd]. intros [H|H]; [discriminate|].
-        unfold consider_connect in C. destruct (needs_connect _ _); inversion C; subst; cbn in H; intuition discriminate.
+  - intros [st Hin].
+    destruct (match id with Some r => match lookupN r (p_runs s) with Some _ => true | None => false end | None => false end) eqn:E.
+    + destruct id as [r|]; [|discriminate]. exists r. split; [reflexivity|]. destruct (lookupN r (p_runs s)); [congruence|discriminate].
+    + exfalso. destruct (lookupN key (p_apps s)) as [i|].
+      * match goal with H : In _ (snd (let '(s2, o) := consider_connect ?S ?I in _)) |- _ =>
+          pose proof (consider_connect_only S I) as CO; destruct (consider_connect S I) as [s2 o] end.
+        cbn [snd] in *. destruct Hin as [H|H]; [discriminate|]. apply in_app_or in H. destruct H as [H|H].
+        -- apply connected_run_only in H. destruct H as [r H]. discriminate.
+        -- apply CO in H. destruct H as [q H]. discriminate.
+      * destruct (Nat.leb app_limit (length (p_apps s))); [cbn in Hin; intuition discriminate|].
+        match goal with H : In _ (snd (let '(s2, o) := consider_connect ?S ?I in _)) |- _ =>
+          pose proof (consider_connect_only S I) as CO; destruct (consider_connect S I) as [s2 o] end.
+        cbn [snd] in *. destruct Hin as [H|H]; [discriminate|]. apply CO in H. destruct H as [q H]. discriminate.
   - intros (r & -> & L). destruct (lookupN r (p_runs s)); [|congruence]. exists SUnknown. left. reflexivity.
 Qed.
 
